@@ -255,6 +255,20 @@ def dtype_array(p):
         M[0, 1] = p['v']
         M[1, 0] = np.iinfo(dt).max - p['v'] + 1       # v + this = 0 modulo 2**bits, but it is not -v
         return M
+    if k == 'complex_translation':       # a proper rotation block, real last row, imaginary translation
+        M = np.eye(n, dtype=complex)
+        c_, s_ = math.cos(p['t']), math.sin(p['t'])
+        M[:2, :2] = [[c_, -s_], [s_, c_]]
+        M[0, n - 1] = 1j * (1.0 + p['t'])
+        return M
+    if k == 'half_precision_unit':       # norm 1.0002: in float16 arithmetic it rounds to exactly 1
+        return np.array([1.0, 0.02] + [0.0] * (n - 2), dtype=np.float16)
+    if k == 'half_precision_zero':       # length 1e-4, below the resolution of float16 next to 1 but not zero
+        return np.array([p['v'] * 1e-4] + [0.0] * (n - 1), dtype=np.float16)
+    if k == 'half_precision_skew':
+        M = np.zeros((n, n), dtype=np.float16)
+        M[0, 1] = 1e-4 * p['v']
+        return M
     raise KeyError(k)
 
 
@@ -266,7 +280,8 @@ def run_dtype(ctx, p):
     sig = dict(api=tgt, defect=p['defect'])
     preds = {'isR': lambda x: base.isR(x), 'isrot': lambda x: base.isrot(x, check=True), 'ishom': lambda x: base.ishom(x, check=True),
              'isrot2': lambda x: base.isrot2(x, check=True), 'ishom2': lambda x: base.ishom2(x, check=True),
-             'isskew': base.isskew, 'isskewa': base.isskewa}
+             'isskew': base.isskew, 'isskewa': base.isskewa, 'isunitvec': base.isunitvec, 'iszerovec': base.iszerovec,
+             'isunit': __import__('spatialmath.base.quaternions', fromlist=['x']).isunit}
     what = lambda: '%s given a %s %s array %s' % (tgt, p['defect'], M.dtype, core.short(M, 300))
     if tgt in preds:
         try:
@@ -667,6 +682,20 @@ def run(ctx):
             else:
                 p.update(t=float(rng.uniform(0.1, 2.0)))
         drive(RUNNERS, ctx, 'dtype', p)
+        if rng.random() < 0.5:
+            r_ = rng.integers(4)
+            if r_ == 0:
+                tgt = ['ishom', 'ishom2', 'SE3', 'SE2'][rng.integers(4)]
+                q = dict(target=tgt, defect='complex_translation', n=4 if tgt in ('ishom', 'SE3') else 3, t=float(rng.uniform(0.1, 2.0)), form=['bare', 'list'][rng.integers(2)])
+            elif r_ == 1:
+                tgt = ['isunitvec', 'isunit'][rng.integers(2)]
+                q = dict(target=tgt, defect='half_precision_unit', n=4 if tgt == 'isunit' else int(rng.integers(2, 5)))
+            elif r_ == 2:
+                q = dict(target='iszerovec', defect='half_precision_zero', n=int(rng.integers(1, 5)), v=int(rng.integers(1, 9)))
+            else:
+                tgt = ['isskew', 'isskewa'][rng.integers(2)]
+                q = dict(target=tgt, defect='half_precision_skew', n=3 if tgt == 'isskew' else 4, v=int(rng.integers(1, 9)))
+            drive(RUNNERS, ctx, 'dtype', q)
     k = 0
     for name in CALLS():
         for _ in range(3 if ctx.tier == 'quick' else 40):
